@@ -436,7 +436,13 @@ func Run(r *core.Run) {
 			specOnlyProgs++
 			if res.NSpecOnly > 0 {
 				m := res.SpecOnly[0]
-				if handVerified(p.Name) {
+				// single-construct using programs: the rules were checked by hand against the proposal.
+				// Nestings with another construct have no native cross-validation of the combination:
+				// a disagreement there is a verdict only if it is an instance of a defect already
+				// reproduced by hand (signature / known construct), otherwise SPEC-DRIFT.
+				sig := signature(p.Name, pos, m.Spec, m.Lowered)
+				knownShape := sig != "" || (knownConstruct(p.Name) != "" && diffClass(m.Spec, m.Lowered) == "lowered-trace-is-prefix-same-throw")
+				if handVerified(p.Name) && (!p.Pair || knownShape) {
 					r.Violation(map[string]interface{}{"kind": "spec-only-trace", "program": p.Name, "construct": family(p.Name), "position": pos, "variant": m.Variant,
 						"diff": diffClass(m.Spec, m.Lowered), "known_construct": knownConstruct(p.Name), "signature": signature(p.Name, pos, m.Spec, m.Lowered)},
 						fmt.Sprintf("lowered %s behaves differently from the proposal semantics (variant %s, env %v): expected %v %s, got %v %s",
